@@ -125,12 +125,30 @@ def make_target(rng, edges, jd, tops, mode):
     return tgt
 
 
+_INV = {}      # vertex label -> index of the case being executed (identity unless the case relabels its vertices)
+
+
+def _ix(v):
+    """vertex label of the network under test -> the index the trace speaks about; unknown labels land outside the input"""
+    try:
+        return _INV.get(v, 100000 + (int(v) % 1000)) if _INV else int(v)
+    except Exception:
+        return 100999
+
+
+def labels_of(case, n):
+    """the library never promises that vertices are 0..N-1: 'shift' = 1000 + 7 v, 'big' = 70000 + v (beyond the small-int cache)"""
+    how = case.get("labels", "id")
+    return [v if how == "id" else 1000 + 7 * v if how == "shift" else 70000 + v for v in range(n)]
+
+
 def _graph_edges(G):
     from gcmpy import NetworkNames as NN
     out = []
     for a, b in G.edges():
         d = G.edges[a, b]
-        out.append([int(a), int(b), str(d.get(NN.TOPOLOGY, "?")), int(d.get(NN.MOTIF_IDS, -1))])
+        x, y = _ix(a), _ix(b)
+        out.append([min(x, y), max(x, y), str(d.get(NN.TOPOLOGY, "?")), int(d.get(NN.MOTIF_IDS, -1))])
     return sorted(out)
 
 
@@ -141,13 +159,17 @@ def execute(case):
     from gcmpy import NetworkNames as NN, ToolsNames as TN
     n = len(case["jd"])
     net = gcmpy.Network()
-    net.G.add_nodes_from(range(n))
+    L = labels_of(case, n)
+    _INV.clear()
+    if case.get("labels", "id") != "id":
+        _INV.update({L[i]: i for i in range(n)})
+    net.G.add_nodes_from(L)
     for v in range(n):
-        net.G.nodes[v][NN.JOINT_DEGREE] = tuple(case["jd"][v])
+        net.G.nodes[L[v]][NN.JOINT_DEGREE] = tuple(case["jd"][v])
     for a, b, t, m in case["edges"]:
-        net.G.add_edge(a, b)
-        net.G.edges[a, b][NN.TOPOLOGY] = t
-        net.G.edges[a, b][NN.MOTIF_IDS] = m
+        net.G.add_edge(L[a], L[b])
+        net.G.edges[L[a], L[b]][NN.TOPOLOGY] = t
+        net.G.edges[L[a], L[b]][NN.MOTIF_IDS] = m
     ejks = {}
     order = list(zip(case["tops"], case["target"]))
     if case.get("ejk_order") == "reversed":      # the target dictionary need not be filled in the order of the name list
@@ -187,13 +209,13 @@ def execute(case):
         # then was handed the judged network through the `network` setter
         try:
             other = gcmpy.Network()
-            other.G.add_nodes_from(range(len(pre["jd"])))
+            other.G.add_nodes_from(L[:len(pre["jd"])])
             for v in range(len(pre["jd"])):
-                other.G.nodes[v][NN.JOINT_DEGREE] = tuple(pre["jd"][v])
+                other.G.nodes[L[v]][NN.JOINT_DEGREE] = tuple(pre["jd"][v])
             for a, b, t, m in pre["edges"]:
-                other.G.add_edge(a, b)
-                other.G.edges[a, b][NN.TOPOLOGY] = t
-                other.G.edges[a, b][NN.MOTIF_IDS] = m
+                other.G.add_edge(L[a], L[b])
+                other.G.edges[L[a], L[b]][NN.TOPOLOGY] = t
+                other.G.edges[L[a], L[b]][NN.MOTIF_IDS] = m
             mcmc.network = other
             mcmc.convergence_limit = pre.get("limit", 2)
             with watchdog(1):
@@ -212,7 +234,7 @@ def execute(case):
 
         def wrapper(G, e0s, e1s, u0, v0, *a, **k):
             snap = _graph_edges(G)
-            st = {"u0": int(u0), "v0": int(v0), "e0s": [[int(x), int(y)] for x, y in e0s], "e1s": [[int(x), int(y)] for x, y in e1s],
+            st = {"u0": _ix(u0), "v0": _ix(v0), "e0s": [[_ix(x), _ix(y)] for x, y in e0s], "e1s": [[_ix(x), _ix(y)] for x, y in e1s],
                   "has_g": snap != last[0], "g": snap if snap != last[0] else [], "result": False, "drew": False, "j": 0, "W": 1, "uz": False}
             last[0] = snap
             pos = len(orc.trail)
@@ -252,7 +274,7 @@ def execute(case):
     tr.pop("steps_truncated", None)
     if R is not None:
         tr["gout"] = _graph_edges(R)
-        tr["vout"] = [int(v) for v in R.nodes()]
+        tr["vout"] = [_ix(v) for v in R.nodes()]
         tr["output_annotations_same"] = {v: dict(R.nodes[v]) for v in R.nodes()} == nattr0
     else:
         tr["gout"] = last[0] if not steps or not steps[-1]["result"] else last[0]
